@@ -43,6 +43,11 @@ Definition tramp_of (plt : bool) : val := if plt then PRET else MRET.
 Definition mem := N -> val.
 Definition upd (m : mem) (a : N) (v : val) : mem := fun x => if x =? a then v else m x.
 
+(* how replay's fix-up table (utils/fstack.c fixup_syms) will classify a record: by the name of the
+   function; the jmp_buf address is ghost information used only by the ground truth of Part 2 *)
+Inductive skd := SNormal | SSetjmp (jb : N) | SLongjmp (jb : N).
+Inductive sev := SEntry (k : skd) | SExit (d : N).
+
 (* struct mcount_ret_stack, the fields that matter here *)
 Record ent := {
   e_loc : N;            (* parent_loc (slot number)                               *)
@@ -52,25 +57,26 @@ Record ent := {
   e_depth : N;          (* depth = record_idx at entry                            *)
   e_lj : bool;          (* MCOUNT_FL_LONGJMP                                      *)
   e_written : bool;     (* MCOUNT_FL_WRITTEN                                      *)
-  e_end : N             (* end_time: 0 = not set; longjmp stores the jmp_buf address here *)
+  e_end : N;            (* end_time: 0 = not set; longjmp stores the jmp_buf address here *)
+  e_kind : skd          (* ghost: what kind of function child_ip is, and on which jmp_buf it was called *)
 }.
 Definition set_written (e : ent) : ent :=
   {| e_loc := e_loc e; e_ip := e_ip e; e_plt := e_plt e; e_child := e_child e; e_depth := e_depth e;
-     e_lj := e_lj e; e_written := true; e_end := e_end e |}.
+     e_lj := e_lj e; e_written := true; e_end := e_end e; e_kind := e_kind e |}.
 Definition set_end (e : ent) (t : N) : ent :=
   {| e_loc := e_loc e; e_ip := e_ip e; e_plt := e_plt e; e_child := e_child e; e_depth := e_depth e;
-     e_lj := e_lj e; e_written := e_written e; e_end := t |}.
+     e_lj := e_lj e; e_written := e_written e; e_end := t; e_kind := e_kind e |}.
 Definition set_lj (e : ent) (b : bool) : ent :=
   {| e_loc := e_loc e; e_ip := e_ip e; e_plt := e_plt e; e_child := e_child e; e_depth := e_depth e;
-     e_lj := b; e_written := e_written e; e_end := e_end e |}.
+     e_lj := b; e_written := e_written e; e_end := e_end e; e_kind := e_kind e |}.
 Definition set_ip (e : ent) (v : val) : ent :=
   {| e_loc := e_loc e; e_ip := v; e_plt := e_plt e; e_child := e_child e; e_depth := e_depth e;
-     e_lj := e_lj e; e_written := e_written e; e_end := e_end e |}.
+     e_lj := e_lj e; e_written := e_written e; e_end := e_end e; e_kind := e_kind e |}.
 
 Inductive rty := ENTRY | EXIT.
-Record rec := { r_ty : rty; r_depth : N; r_child : N }.
-Definition entry_rec (e : ent) : rec := {| r_ty := ENTRY; r_depth := e_depth e; r_child := e_child e |}.
-Definition exit_rec (e : ent) : rec := {| r_ty := EXIT; r_depth := e_depth e; r_child := e_child e |}.
+Record rec := { r_ty : rty; r_depth : N; r_child : N; r_kind : skd }.
+Definition entry_rec (e : ent) : rec := {| r_ty := ENTRY; r_depth := e_depth e; r_child := e_child e; r_kind := e_kind e |}.
+Definition exit_rec (e : ent) : rec := {| r_ty := EXIT; r_depth := e_depth e; r_child := e_child e; r_kind := e_kind e |}.
 
 (* the per-thread data + the global jmpbuf list + the stack memory + what was written to the buffer.
    rs is the shadow stack, TOP FIRST (rs = rstack[idx-1] :: ... :: rstack[0]). *)
@@ -182,16 +188,16 @@ Definition rehook_exception (s : lst) (fa : N) : lst :=
   {| rs := l'; ridx := ri; inexc := inexc s; m := rehook_all l' (m s); jbs := jbs s; jpc := jpc s; out := o |}.
 
 (* ---------------------------------------------------------------- hooks *)
-Definition new_ent (s : lst) (plt : bool) (child loc : N) : ent :=
+Definition new_ent (s : lst) (plt : bool) (child loc : N) (kind : skd) : ent :=
   {| e_loc := loc; e_ip := m s loc; e_plt := plt; e_child := child; e_depth := ridx s;
-     e_lj := false; e_written := false; e_end := 0 |}.
+     e_lj := false; e_written := false; e_end := 0; e_kind := kind |}.
 
 (* __mcount_entry(parent_loc = loc, child); fa = the word parent_loc[-1] *)
 Definition mcount_entry (s0 : lst) (child loc fa : N) : lst :=
   let s := if inexc s0
            then with_exc (rehook_exception s0 (if fa <? loc then loc - 1 else fa)) false
            else s0 in
-  let e := new_ent s false child loc in
+  let e := new_ent s false child loc SNormal in
   let l := e :: rs s in
   {| rs := l; ridx := ridx s + 1; inexc := inexc s;
      m := auto_restore (inexc s) l (upd (m s) loc MRET);
@@ -222,10 +228,12 @@ Definition kind_flags (k : skind) : N :=
   | KFlush => PLT_FL_FLUSH | KExcept => PLT_FL_EXCEPT
   end.
 Definition is_flush k := match k with KLongjmp | KFlush => true | _ => false end.
+Definition kind_of (k : skind) (arg : N) : skd :=
+  match k with KSetjmp => SSetjmp arg | KLongjmp => SLongjmp arg | _ => SNormal end.
 
 (* __plthook_entry(ret_addr = loc, child), ARG1 = arg *)
 Definition plthook_entry (s : lst) (k : skind) (child loc arg : N) : lst :=
-  let e := new_ent s true child loc in
+  let e := new_ent s true child loc (kind_of k arg) in
   let m1 := auto_restore (inexc s) (e :: rs s) (upd (m s) loc PRET) in
   let ri := ridx s + 1 in
   (* PLT_FL_FLUSH: record_trace_data(mtdp, rstack, NULL) with end_time = 0 *)
@@ -664,8 +672,6 @@ Fixpoint bad_indices {A} (f : A -> bool) (l : list A) (i : nat) : list nat :=
 From Coq Require Import ZArith.
 (* one record of a task's stream as replay classifies it (fixup_syms); an EXIT carries the depth field
    of the record *)
-Inductive skd := SNormal | SSetjmp (jb : N) | SLongjmp (jb : N).
-Inductive sev := SEntry (k : skd) | SExit (d : N).
 
 (* utils/fstack.c: stack_count / display_depth / longjmp_pending of the task + the two file-level statics
    (C ints: modelled in Z) *)
@@ -737,6 +743,10 @@ Fixpoint gt_run (g : gt) (es : list sev) : option (list N) :=
               end
   end.
 
+(* the record stream as replay reads it *)
+Definition sev_of (r : rec) : sev := match r_ty r with ENTRY => SEntry (r_kind r) | EXIT => SExit (r_depth r) end.
+Definition stream_of (o : list rec) : list sev := map sev_of o.
+
 Definition nlist_eqb := list_eqb N.eqb.
 (* the depths of the ENTRY records only (what one can read off replay's output: `f() {` / `f();` lines) *)
 Fixpoint entry_depths (es : list sev) (ds : list N) : list N :=
@@ -753,3 +763,29 @@ Definition ok_replay_entries (es : list sev) (shown : list N) : bool :=
   match gt_run gt0 es with Some l => nlist_eqb (entry_depths es l) shown | None => false end.
 Definition agree_replay_entries (es : list sev) (shown : list N) : bool :=
   nlist_eqb (entry_depths es (rp_run rp0 es)) shown.
+
+(* checker for the record stream the implementation wrote in-process: classify its records with the kinds
+   (setjmp / longjmp and their jmp_buf) the program's operations imply, then ask the ground truth and the
+   replay model: every record must be accepted at the depth it carries, and replay must show that depth *)
+Definition impl_stream (ops : list op) (recs : list (N * N * N)) : option (list sev) :=
+  match lrun init ops with
+  | Some (s, _) =>
+      if Nat.eqb (length (out s)) (length recs)
+      then Some (map (fun p : rec * (N * N * N) =>
+                        let '(r, (ty, d, _)) := p in if ty =? 0 then SEntry (r_kind r) else SExit d)
+                     (combine (out s) recs))
+      else None
+  | None => None
+  end.
+Definition ok_stream (ops : list op) (recs : list (N * N * N)) : bool :=
+  match impl_stream ops recs with
+  | Some es =>
+      let ds := map (fun r : N * N * N => let '(_, d, _) := r in d) recs in
+      match gt_run gt0 es with
+      | Some l => nlist_eqb l ds && nlist_eqb (rp_run rp0 es) ds
+      | None => false
+      end
+  | None => true      (* different number of records: reported by agree_case as a disagreement *)
+  end.
+Definition fok2 (c : fcase) : bool :=
+  let '(ops, _, recs, _) := c in fok c && ok_stream ops (decode_recs recs).
